@@ -390,6 +390,31 @@ func checkC07(c *Check, p *Program) {
 			c.Decide(okG, "C07.accept", dptName(dt)+" payload written only for a valid value", p.InstrPos(st), "store behind d.IsValid() == true", "a field is encoded without the value passing IsValid(), the predicate the decoder applies: the encoding of an invalid value is rejected by the type's own decoder")
 		})
 		c.Floor("C07.accept", dptName(dt)+" guarded field stores", n, 3)
+		// a field that is shifted into its place must fit the bits that survive the shift for every value IsValid
+		// lets through: otherwise the top bits fall off and another valid value is encoded (no saturation, a wrap)
+		if isv != nil {
+			instrsOf(dt.Pack, func(in ssa.Instruction) {
+				bo, ok := in.(*ssa.BinOp)
+				if !ok || bo.Op != token.SHL {
+					return
+				}
+				k, isK := constInt(bo.Y)
+				f := loadedField(stripAllConv(bo.X))
+				if fx, isF := stripAllConv(bo.X).(*ssa.Field); isF {
+					f = structField(fx.X.Type(), fx.Field)
+				}
+				w, _, okw := typeWidth(bo.Type(), "amd64")
+				if !isK || f == nil || !okw || w != 8 || k <= 0 || k >= 8 {
+					return
+				}
+				rng, _ := isValidFieldRange(p, isv, f.Name())
+				lim := float64(int64(255) >> uint(k))
+				if bt, isB := f.Type().Underlying().(*types.Basic); isB && bt.Info()&types.IsUnsigned != 0 && rng.lo < 0 {
+					rng.lo = 0
+				}
+				c.Decide(rng.hi <= lim && rng.lo >= 0, "C07.accept", dptName(dt)+"."+f.Name()+" fits the bits it is shifted into", p.InstrPos(bo), fmt.Sprintf("IsValid bounds it to %s, %d bits remain", fivString(rng), 8-k), fmt.Sprintf("IsValid lets %s be %s, but shifted left by %d in one octet only values up to %g keep all their bits: a larger value is encoded as a different valid value", f.Name(), fivString(rng), k, lim))
+			})
+		}
 	}
 	for _, spec := range []struct {
 		key  string
